@@ -68,10 +68,12 @@ class World(object):
         self.keep = []        # keeps refused objects alive (so id() values are not reused)
         self.keytok = Tokens(); self.valtok = Tokens(); self.qntok = Tokens()
         self.doc = None
+        self.roots = {}       # id -> (parent, previous, next) of a skeleton node of the document
         if attached:
             self.doc = OpenDocumentText()
-            # a style that no op ever touches keeps the style index non-empty
-            self.doc.styles.addElement(style.Style(name=u'Fixed', family=u'paragraph'))
+            # a style that no op ever touches keeps the style index non-empty (an empty index makes
+            # getStyleByName rebuild the element index - a C09 matter that would blur this check)
+            self.doc.automaticstyles.addElement(style.Style(name=u'Fixed', family=u'paragraph'))
 
     # ------------------------------------------------------------------ ids
     def reg(self, i, node):
@@ -216,6 +218,10 @@ class World(object):
                 if op[1] == 'e':
                     if op[3] == '@doctext':
                         node = self.doc.text
+                        self.roots[op[2]] = (node.parentNode, node.previousSibling, node.nextSibling)
+                    elif op[3] == '@docstyles':
+                        node = self.doc.styles
+                        self.roots[op[2]] = (node.parentNode, node.previousSibling, node.nextSibling)
                     else:
                         node = factory(op[3])(check_grammar=False)
                 elif op[1] == 't':
@@ -298,16 +304,20 @@ class World(object):
         for i in sorted(self.nodes):
             n = self.nodes[i]
             kind = {1: 'e', 3: 't', 4: 'c'}[n.nodeType]
-            par = self.nid(n.parentNode)
-            if self.attached and i == 0:
-                par = None if n.parentNode is self.body() else 'X'     # the root hangs under office:body, outside the universe
+            par = self.nid(n.parentNode); prv = self.nid(n.previousSibling); nxt = self.nid(n.nextSibling)
+            if i in self.roots:
+                # a part of the document skeleton: its own place (outside the universe) must not change
+                r = self.roots[i]
+                par = None if n.parentNode is r[0] else 'X'
+                prv = None if n.previousSibling is r[1] else 'X'
+                nxt = None if n.nextSibling is r[2] else 'X'
             attrs = []
             if kind == 'e':
-                for key, v in n.attributes.items():
+                for key, v in (getattr(n, 'attributes', None) or {}).items():
                     attrs.append((self.keytok(key), self.valtok(v)))
             attrs.sort()
             out.append('%d:%s:%s:%s:%s:[%s]:{%s}' % (
-                i, kind, s(par), s(self.nid(n.previousSibling)), s(self.nid(n.nextSibling)),
+                i, kind, s(par), s(prv), s(nxt),
                 ','.join(str(self.nid(c)) for c in n.childNodes),
                 ','.join('%d=%d' % a for a in attrs)))
         return 'ok ' + ' '.join(out)
